@@ -87,21 +87,24 @@ def walk_from0(rec: Sequence[int]) -> List[int]:
 _ENVS: Dict[tuple, object] = {}
 
 
-def kopt_env(n: int, K: int):
-    key = ("kopt", n, K)
+def kopt_env(n: int, K: int, init: str = "random", torchrl: bool = False):
+    key = ("kopt", n, K, init, torchrl)
     if key not in _ENVS:
         from rl4co.envs.routing.tsp.env import TSPkoptEnv
 
-        _ENVS[key] = TSPkoptEnv(generator_params=dict(num_loc=n), k_max=K)
+        _ENVS[key] = TSPkoptEnv(generator_params=dict(num_loc=n, init_sol_type=init), k_max=K, _torchrl_mode=torchrl)
     return _ENVS[key]
 
 
-def pdp_env(gs: int):
-    key = ("pdp", gs)
+def pdp_env(gs: int, init: str = "random", torchrl: bool = False, train: bool = True):
+    key = ("pdp", gs, init, torchrl, train)
     if key not in _ENVS:
         from rl4co.envs.routing.pdp.env import PDPRuinRepairEnv
 
-        _ENVS[key] = PDPRuinRepairEnv(generator_params=dict(num_loc=gs - 1))
+        env = PDPRuinRepairEnv(generator_params=dict(num_loc=gs - 1, init_sol_type=init), _torchrl_mode=torchrl)
+        if not train:
+            env.eval()  # `_reset` sizes `action_record` by `self.training`
+        _ENVS[key] = env
     return _ENVS[key]
 
 
@@ -113,15 +116,68 @@ def ilist(s: str) -> List[int]:
     return [int(x) for x in s.split(",")] if s != "" else []
 
 
-def reset_with(env, kind: int, pts_rows: List[List[Tuple[int, int]]], recs: List[List[int]]):
-    """`env.reset` on exact-stream coordinates with the initial solutions injected (the generator's own
-    initial solutions are replaced, everything else is the real `_reset`)."""
-    B = len(recs)
-    coords = torch.tensor([geom.to_unit(p) for p in pts_rows], dtype=torch.float32)
+# ---- exact-stream geometry at arbitrary magnitude --------------------------------------------------
+# A row's coordinates are (pt / 2^10 + off) * 2^exp with `pt` an integral point set on the 2^-10 grid
+# (harness/geom.py), `off` an integer shift and `exp` a power-of-two scale.  Scaling by a power of two and
+# shifting by a small integer keep every float32 operation of `get_costs` exact, so tour lengths are exact
+# integers in units of 2^(exp-20); the Lean model works on the unscaled integer matrix.
+EXPS = [0, 0, -3, -6, -8, -10, -10, -12, -12, -14, -14, -16, -16, 3, 6]
+OFFS = [(0, 0), (0, 0), (0, 0), (3, 0), (100, 7), (1000, 1000)]
+
+
+def gen_geo(rng, n: int, exp: Optional[int] = None) -> dict:
+    fam = rng.choice(["line", "cross", "cross1", "cross1", "line", "neartie"])
+    if fam == "cross1":
+        # the Pythagorean cross at unit scale: distances 13/15/20/37 mix with integers along the axis, so tours can
+        # differ by exactly ONE grid unit (on a line every closed tour has even length)
+        cx, cy = rng.randrange(35, geom.GRID - 35), rng.randrange(12, geom.GRID - 12)
+        base = [(cx + x, cy + y) for (x, y) in geom.CROSS]
+        pts = rng.sample(base, n) if (n <= len(base) and rng.random() < 0.7) else [rng.choice(base) for _ in range(n)]
+    elif fam == "neartie":
+        # collinear points in clusters one grid unit apart: many equal-cost tours and minimal positive improvements
+        base = [rng.randrange(100, 900) for _ in range(max(1, n // 2))]
+        xs = [rng.choice(base) + rng.choice([0, 0, 1, -1, 2]) for _ in range(n)]
+        fixed = rng.randrange(0, 1025)
+        pts = [(x, fixed) for x in xs] if rng.random() < 0.5 else [(fixed, x) for x in xs]
+    else:
+        pts = geom.gen_points(rng, n, fam)
+    return {"pts": pts, "exp": rng.choice(EXPS) if exp is None else exp, "off": rng.choice(OFFS)}
+
+
+def geo_coords(g: dict) -> List[List[float]]:
+    sc = 2.0 ** g["exp"]
+    ox, oy = g["off"]
+    return [[(x / geom.GRID + ox) * sc, (y / geom.GRID + oy) * sc] for (x, y) in g["pts"]]
+
+
+def to_ticks(x, exp: int) -> int:
+    """exact integer value of a float32 cost at scale 2^exp, in units of 2^(exp-20); raises if not on the grid"""
+    v = float(x) * 2.0 ** (20 - exp)
+    r = int(round(v))
+    if r != v:
+        raise ValueError(f"value {float(x)!r} is not on the 2^({exp}-20) grid")
+    return r
+
+
+def as_geo(g) -> dict:
+    return g if isinstance(g, dict) else {"pts": [tuple(p) for p in g], "exp": 0, "off": (0, 0)}
+
+
+def reset_with(env, kind: int, geos, recs: Optional[List[List[int]]]):
+    """`env.reset` on exact-stream coordinates.  With `recs` the initial solutions are injected (the generator's
+    own ones are replaced, everything else is the real `_reset`); with `recs=None` the generator's own
+    `_get_initial_solutions` (option `init_sol_type`) is used."""
+    geos = [as_geo(g) for g in geos]
+    B = len(geos)
+    c64 = torch.tensor([geo_coords(g) for g in geos], dtype=torch.float64)
+    coords = c64.to(torch.float32)
+    assert bool((coords.to(torch.float64) == c64).all()), "coordinates are not exactly representable in float32"
     if kind == 0:
         td0 = TensorDict({"depot": coords[:, 0, :], "locs": coords[:, 1:, :]}, batch_size=[B])
     else:
         td0 = TensorDict({"locs": coords}, batch_size=[B])
+    if recs is None:
+        return env.reset(td0)
     init = torch.tensor(recs, dtype=torch.long)
     old = env.generator._get_initial_solutions
     env.generator._get_initial_solutions = lambda c: init.clone()
@@ -191,6 +247,10 @@ def _cmp_op2(ctx, n: int, recs: List[List[int]], acts: List[List[int]], what: st
             ctx.violation("kopt2:move-breaks-tour", "an admitted 2-opt move turns a tour into a non-tour (real code)",
                           {"n": n, "rec": r, "action": a, "result": out})
     ctx.count(f"kopt2.{what}.n={n}", len(recs))
+    if recs:
+        k = len(recs) // 2
+        ctx.sample({"unit": "kopt", "op": "2-opt _local_operator", "n": n, "rec": recs[k], "action": acts[k], "real_result": real[k],
+                    "spec_tour": parse_fields(sp[k]).get("tour"), "stream": what}, cap=6)
 
 
 def _kopt2_mask(ctx, n: int):
@@ -288,6 +348,10 @@ def _cmp_builder(ctx, n: int, K: int, recs: List[List[int]], choices: List[List[
         segs = len(set(c))
         ctx.count(f"koptk.{what}.K={K}.distinct-nodes={segs}")
     ctx.count(f"koptk.{what}.n={n}", B)
+    if B:
+        k = B // 2
+        ctx.sample({"unit": "kopt", "op": "k-opt builder + _local_operator", "n": n, "K": K, "rec": recs[k], "nodes": choices[k],
+                    "real_action": real_actions[k], "real_result": real_next[k], "stream": what}, cap=6)
 
 
 def _koptk_random_action(ctx, n: int, K: int, B: int):
@@ -337,10 +401,10 @@ def run_kopt(ctx):
     for _ in range(ctx.budget(6, 40)):
         _kopt2_random_action(ctx, ctx.rng.choice([3, 4, 5, 8, 20]), 16)
     # (2) k-opt: every node sequence the builder admits, tiny n
-    grid = [(4, 3), (5, 3), (5, 4), (6, 3), (6, 4)] if not thorough else \
-        [(4, 3), (4, 4), (5, 3), (5, 4), (5, 5), (6, 3), (6, 4), (6, 5), (7, 3), (7, 4), (7, 5), (8, 4)]
+    grid = [(4, 3), (5, 3), (5, 4), (6, 3), (6, 4), (7, 5), (8, 6)] if not thorough else \
+        [(4, 3), (4, 4), (5, 3), (5, 4), (5, 5), (6, 3), (6, 4), (6, 5), (7, 3), (7, 4), (7, 5), (8, 4), (8, 6)]
     for (n, K) in grid:
-        tours = [seq_to_rec(list(range(n)))] + [rand_tour(ctx.rng, n) for _ in range(2 if not thorough else 4)]
+        tours = [seq_to_rec(list(range(n)))] + [rand_tour(ctx.rng, n) for _ in range((2 if K <= 4 else 1) if not thorough else 4)]
         recs, choices = [], []
         for rec in tours:
             seqs, rejected = _gen_tree(ctx, n, K, rec)
@@ -355,7 +419,7 @@ def run_kopt(ctx):
         n = ctx.rng.choice([4, 5, 6, 8, 10, 20, 50])
         K = ctx.rng.choice([3, 4, 5, 6])
         _koptk_random_action(ctx, n, K, 24)
-    ctx.sample({"unit": "kopt", "what": "2-opt on all tours × all (a,b) for tiny n; k-opt on every admitted node sequence"})
+    ctx.count("koptk.k_max-values-covered=" + ",".join(str(k) for k in sorted({K for _, K in grid} | {3, 4, 5, 6})))
 
 
 def _masked_nodes_rejected(ctx, n: int, K: int, rec: List[int]):
@@ -425,6 +489,11 @@ def _cmp_pdp_op(ctx, gs: int, recs: List[List[int]], acts: List[List[int]], what
         if adm:
             ctx.count(f"pdprr.{what}.first{'=' if a[1] == a[2] else '<'}second" + (".first=depot" if a[1] == 0 else ""))
     ctx.count(f"pdprr.{what}.gs={gs}", len(recs))
+    if recs:
+        k = len(recs) // 2
+        ctx.sample({"unit": "pdprr", "op": "ruin-repair _local_operator", "gs": gs, "rec": recs[k], "action": acts[k],
+                    "real_result": real[k], "model_mask": parse_fields(reps[k]).get("mask"),
+                    "spec_valid": parse_fields(sp[k]).get("valid"), "stream": what}, cap=6)
 
 
 def _pdp_masks(ctx, gs: int, recs: List[List[int]]):
@@ -501,7 +570,6 @@ def run_pdprr(ctx):
         _pdp_masks(ctx, gs, recs[:3])
     for _ in range(ctx.budget(6, 40)):
         _pdp_random_action(ctx, ctx.rng.choice([3, 5, 7, 11, 21]), 16)
-    ctx.sample({"unit": "pdprr", "what": "ruin-repair on all valid tours × all (pair, first, second) for gs ≤ 7"})
 
 
 # ------------------------------------------------------------------------------------------------
@@ -512,12 +580,14 @@ def run_pdprr(ctx):
 class Trace:
     """per-row record of the REAL observables after reset and after every step"""
 
-    def __init__(self, B: int):
+    def __init__(self, B: int, exps: Optional[List[int]] = None):
+        self.exps = exps or [0] * B
         self.cur = [[] for _ in range(B)]
         self.best = [[] for _ in range(B)]
         self.ccur = [[] for _ in range(B)]
         self.cbsf = [[] for _ in range(B)]
         self.rew = [[] for _ in range(B)]
+        self.rewf = [[] for _ in range(B)]  # the float32 reward itself (magnitude statistics)
         self.vt = [[] for _ in range(B)]
         self.moves = [[] for _ in range(B)]
         self.inexact = False
@@ -530,10 +600,12 @@ class Trace:
             self.cur[r].append(cur[r])
             self.best[r].append(best[r])
             self.vt[r].append([int(v) for v in vt[r]])
+            e = self.exps[r]
+            self.rewf[r].append(0.0 if first else float(td["reward"][r]))
             try:
-                self.ccur[r].append(rl.ticks(td["cost_current"][r]))
-                self.cbsf[r].append(rl.ticks(td["cost_bsf"][r]))
-                self.rew[r].append(0 if first else rl.ticks(td["reward"][r]))
+                self.ccur[r].append(to_ticks(td["cost_current"][r], e))
+                self.cbsf[r].append(to_ticks(td["cost_bsf"][r], e))
+                self.rew[r].append(0 if first else to_ticks(td["reward"][r], e))
             except ValueError:
                 self.inexact = True
                 self.ccur[r].append(None)
@@ -541,15 +613,24 @@ class Trace:
                 self.rew[r].append(None)
 
 
-def judge_trace(ctx, kind: int, n: int, pts: List[Tuple[int, int]], tr: Trace, r: int, what: str, admitted=None):
+def move_str(m) -> str:
+    return J(m)
+
+
+def judge_trace(ctx, kind: int, n: int, geo, tr: Trace, r: int, what: str, admitted=None, opts=None):
     """(a) model vs real, every observable of every step; (b) the property itself on the REAL observables,
-    judged with the Lean Spec (`improve.spec`: single cycle / precedence / tour length)."""
+    judged with the Lean Spec (`improve.spec`: single cycle / precedence / tour length).  A move `[-1, *sol]`
+    is `step_to_solution(td, sol)`."""
+    geo = as_geo(geo)
+    pts = geo["pts"]
     D = geom.D_ticks(pts)
     flat = J(v for row in D for v in row)
     moves = tr.moves[r]
     line = f"improve.steps {kind} {n} | {flat} | {J(tr.cur[r][0])} | " + " | ".join(J(m) for m in moves)
     f = parse_fields(ctx.driver.ask(line if moves else line.rstrip(" |")))
-    wit = {"kind": kind, "n": n, "pts": pts, "rec0": tr.cur[r][0], "moves": moves, "what": what}
+    wit = {"kind": kind, "n": n, "pts": pts, "exp": geo["exp"], "off": list(geo["off"]), "rec0": tr.cur[r][0],
+           "moves": moves, "what": what, "opts": opts,
+           "unit_of_costs": f"2^({geo['exp']}-20)"}
     if "cur" not in f:
         ctx.disagreement("improve.steps driver error", {"reply": f, "line": line[:400]})
         return
@@ -574,6 +655,7 @@ def judge_trace(ctx, kind: int, n: int, pts: List[Tuple[int, int]], tr: Trace, r
     sp_cur = [parse_fields(x) for x in ctx.driver.ask_many(spec_lines(kind, n, tr.cur[r], D))]
     sp_best = [parse_fields(x) for x in ctx.driver.ask_many(spec_lines(kind, n, tr.best[r], D))]
     seen_min = None
+    # a jump to an arbitrary solution is only "admitted" when that solution is valid
     for t in range(T + 1):
         w = dict(wit, step=t)
         if sp_cur[t]["valid"] != "1" and (admitted is None or all(admitted[:t])):
@@ -606,12 +688,32 @@ def judge_trace(ctx, kind: int, n: int, pts: List[Tuple[int, int]], tr: Trace, r
     if tr.ccur[r][0] is not None and all(x is not None for x in tr.rew[r]):
         if sum(tr.rew[r][1:]) != tr.ccur[r][0] - tr.cbsf[r][T]:
             ctx.violation("bsf:reward-sum", "Σ rewards ≠ initial cost − best cost", wit)
-    improving = sum(1 for t in range(1, T + 1) if tr.rew[r][t] and tr.rew[r][t] > 0)
-    ties = sum(1 for t in range(1, T + 1) if tr.ccur[r][t] is not None and tr.ccur[r][t] == tr.cbsf[r][t - 1])
+    # ---- input distribution: magnitudes of the improvements that occurred ----
+    top = what.split(".")[0]
+    grid = geom.TICKS_PER_GRID
+    for t in range(1, T + 1):
+        rw, rf = tr.rew[r][t], tr.rewf[r][t]
+        if rw is None:
+            continue
+        if rw > 0:
+            ctx.count(f"{what}.improving-steps")
+            bucket = "≤1e-7" if rf <= 1e-7 else "≤1e-5" if rf <= 1e-5 else "≤1e-3" if rf <= 1e-3 else "≤1" if rf <= 1 else ">1"
+            ctx.count(f"{top}.improvement-float32-size.{bucket}")
+            if rw == grid:
+                ctx.count(f"{top}.improvement=exactly-one-grid-unit")
+            elif rw == 2 * grid:
+                ctx.count(f"{top}.improvement=two-grid-units")
+        elif tr.ccur[r][t] == tr.cbsf[r][t - 1]:
+            ctx.count(f"{what}.tie-with-bsf-steps")
+        if moves[t - 1] and moves[t - 1][0] == -1:
+            ctx.count(f"{top}.step_to_solution-steps")
+        elif kind == 2 and tr.cur[r][t - 1][moves[t - 1][1]] == moves[t - 1][0]:
+            ctx.count(f"{top}.kopt2-wrap-around-moves(rec[second]==first)")
     ctx.count(f"{what}.steps", T)
-    ctx.count(f"{what}.improving-steps", improving)
-    ctx.count(f"{what}.tie-with-bsf-steps", ties)
-    ctx.case((what, kind, n, tuple(map(tuple, moves)), tuple(tr.cur[r][0])), nontrivial=T > 1)
+    ctx.count(f"{top}.scale=2^{geo['exp']}")
+    if tuple(geo["off"]) != (0, 0):
+        ctx.count(f"{top}.shifted-from-origin")
+    ctx.case((what, kind, n, tuple(map(tuple, moves)), tuple(tr.cur[r][0]), geo["exp"]), nontrivial=T > 1)
 
 
 def real_moves(ctx, env, kind: int, n: int, td, how: str) -> List[List[int]]:
@@ -639,32 +741,78 @@ def real_moves(ctx, env, kind: int, n: int, td, how: str) -> List[List[int]]:
     return env._random_action(td).tolist()
 
 
+def jump(ctx, env, kind: int, n: int, td) -> List[List[int]]:
+    """`env.step_to_solution(td, solution)` — the `solution_to` branch of `_step` (used by n-step PPO with
+    CL_best): per call either the stored best tours (the very tensor held by td), fresh valid tours, or the
+    current tours.  Returns the per-row moves `[-1, *solution]`; td is updated by the real call."""
+    B = td.batch_size[0]
+    mode = ctx.rng.choice(["best", "fresh", "fresh", "current"])
+    if mode == "best":
+        sol = td["rec_best"]
+    elif mode == "current":
+        sol = td["rec_current"]
+    else:
+        sol = torch.tensor([rand_pdp_tour(ctx.rng, n) if kind == 0 else rand_tour(ctx.rng, n) for _ in range(B)], dtype=torch.long)
+    mv = [[-1] + row for row in sol.tolist()]
+    out = env.step_to_solution(td, sol)
+    assert out is td or out is not None
+    ctx.count(f"step_to_solution.{mode}")
+    return mv, out
+
+
+def pick_env(ctx, kind: int, n: int):
+    """the environment under one of its option combinations (all legal, all non-default ones included)"""
+    init = ctx.rng.choice(["random", "greedy"])
+    torchrl = ctx.rng.random() < 0.3
+    if kind == 0:
+        train = ctx.rng.random() < 0.6
+        return pdp_env(n, init, torchrl, train), {"init_sol_type": init, "_torchrl_mode": torchrl, "training": train}
+    return kopt_env(n, kind, init, torchrl), {"init_sol_type": init, "_torchrl_mode": torchrl, "k_max": kind}
+
+
 def run_bsf(ctx):
-    total = ctx.budget(48, 2400)
-    T = 50
+    total = ctx.budget(200, 6000)
+    T = 16
     rows = 0
+    it = 0
     while rows < total:
-        kind = ctx.rng.choice([2, 2, 0, 0, 3, 4, 5])
+        kind = [2, 0, 3, 4, 5, 6, 2, 0][it % 8]
+        it += 1
         if kind == 0:
             n = ctx.rng.choice([3, 5, 7, 9, 11])
         else:
-            n = ctx.rng.choice([4, 5, 6, 8, 11]) if kind == 2 else ctx.rng.choice([kind + 1, 6, 8, 11])
+            n = ctx.rng.choice([3, 4, 5, 6, 8, 11]) if kind == 2 else ctx.rng.choice([kind + 1, 7, 8, 11])
         # k-opt (K > 2): `_random_action` indexes with a `.squeeze()`d [1,1] tensor and raises IndexError for a
         # batch of ONE row (so does NeuOptPolicy); PDPRuinRepairEnv._step raises RuntimeError (overlapping in-place
         # shift of `action_record`) for a batch of ONE row.  No move / observable is produced, so both are outside
         # C09 (reported separately) — B ≥ 2 there
-        B = ctx.rng.choice([1, 2, 4]) if kind == 2 else ctx.rng.choice([2, 4])
-        env = pdp_env(n) if kind == 0 else kopt_env(n, kind)
-        pts = [geom.gen_points(ctx.rng, n) for _ in range(B)]
-        recs = [rand_pdp_tour(ctx.rng, n) if kind == 0 else rand_tour(ctx.rng, n) for _ in range(B)]
+        B = ctx.rng.choice([1, 2, 3, 5]) if kind == 2 else ctx.rng.choice([2, 3, 5])
+        env, opts = pick_env(ctx, kind, n)
+        # rows of ONE batch differ in magnitude (small scales over-represented: improvements of 1e-8 … 1e-4)
+        geos = [gen_geo(ctx.rng, n) for _ in range(B)]
+        own_init = ctx.rng.random() < 0.35
+        recs = None if own_init else [rand_pdp_tour(ctx.rng, n) if kind == 0 else rand_tour(ctx.rng, n) for _ in range(B)]
         how = ctx.rng.choice(["mask", "sampler"])
-        td = reset_with(env, kind, pts, recs)
-        tr = Trace(B)
+        if own_init:
+            seed_torch(ctx)
+        td = reset_with(env, kind, geos, recs)
+        tr = Trace(B, [g["exp"] for g in geos])
         tr.snap(td, True)
+        if own_init:
+            # the generator's own initial solution must itself be a valid tour (it is the premise of every theorem)
+            sp = [parse_fields(x) for x in ctx.driver.ask_many(spec_lines(kind, n, [tr.cur[r][0] for r in range(B)]))]
+            for r in range(B):
+                ctx.count(f"bsf.initial-solution-from-generator.{opts['init_sol_type']}")
+                if sp[r]["valid"] != "1":
+                    ctx.violation("reset:initial-solution-invalid", "the generator's initial solution is not a valid tour",
+                                  {"kind": kind, "n": n, "opts": opts, "rec0": tr.cur[r][0], "pts": geos[r]["pts"]})
         for t in range(T):
-            mv = real_moves(ctx, env, kind, n, td, how)
-            td.set("action", torch.tensor(mv, dtype=torch.long))
-            td = env.step(td)["next"]
+            if ctx.rng.random() < 0.08:
+                mv, td = jump(ctx, env, kind, n, td)
+            else:
+                mv = real_moves(ctx, env, kind, n, td, how)
+                td.set("action", torch.tensor(mv, dtype=torch.long))
+                td = env.step(td)["next"]
             for r in range(B):
                 tr.moves[r].append(mv[r])
             tr.snap(td, False)
@@ -672,11 +820,17 @@ def run_bsf(ctx):
             ctx.count("bsf.inexact-cost-rows")
         what = {0: "pdprr", 2: "kopt2"}.get(kind, "koptk")
         for r in range(B):
-            judge_trace(ctx, kind, n, pts[r], tr, r, f"bsf.{what}")
+            judge_trace(ctx, kind, n, geos[r], tr, r, f"bsf.{what}", opts=opts)
             ctx.count(f"bsf.{what}.n={n}")
             ctx.count(f"bsf.moves-from={how}")
+            ctx.count(f"bsf.B={B}")
+            if kind > 2:
+                ctx.count(f"bsf.k_max={kind}")
+        for k, v in opts.items():
+            ctx.count(f"bsf.opt.{k}={v}")
+        ctx.sample({"unit": "bsf", "kind": kind, "n": n, "opts": opts, "scale_exp": geos[0]["exp"], "off": geos[0]["off"],
+                    "rec0": tr.cur[0][0], "moves": tr.moves[0][:4], "cost_bsf_ticks": tr.cbsf[0][:5]}, cap=4)
         rows += B
-    ctx.sample({"unit": "bsf", "T": T, "what": "reset + 50 admitted moves per row, all observables each step"})
 
 
 # ------------------------------------------------------------------------------------------------
@@ -685,49 +839,74 @@ def run_bsf(ctx):
 
 
 def make_policy(name: str, ctx):
+    """a bundled policy with random weights under one of its option combinations"""
     seed_torch(ctx)
-    kw = dict(embed_dim=16, num_heads=2, num_encoder_layers=1, feedforward_hidden=16)
+    heads = ctx.rng.choice([1, 2, 4])
+    opts = dict(embed_dim=ctx.rng.choice([16, 32]), num_heads=heads, num_encoder_layers=ctx.rng.choice([1, 2]),
+                feedforward_hidden=ctx.rng.choice([16, 32]), normalization=ctx.rng.choice(["layer", "batch", "instance"]),
+                pos_type=ctx.rng.choice(["CPE", "APE"]), temperature=ctx.rng.choice([1.0, 0.5, 2.0]),
+                tanh_clipping=ctx.rng.choice([6.0, 0, 10.0]))
+    dt = ctx.rng.choice(["sampling", "greedy"])
+    opts.update(train_decode_type=dt, val_decode_type=dt, test_decode_type=dt)
     if name == "dact":
         from rl4co.models.zoo.dact.policy import DACTPolicy
 
-        return DACTPolicy(env_name="tsp_kopt", **kw).eval()
-    if name == "n2s":
+        pol = DACTPolicy(env_name="tsp_kopt", **opts)
+    elif name == "n2s":
         from rl4co.models.zoo.n2s.policy import N2SPolicy
 
-        return N2SPolicy(env_name="pdp_ruin_repair", **kw).eval()
-    from rl4co.models.zoo.neuopt.policy import NeuOptPolicy
+        pol = N2SPolicy(env_name="pdp_ruin_repair", **opts)
+    else:
+        from rl4co.models.zoo.neuopt.policy import NeuOptPolicy
 
-    return NeuOptPolicy(env_name="tsp_kopt", **kw).eval()
+        pol = NeuOptPolicy(env_name="tsp_kopt", **opts)
+    return pol.eval(), opts
 
 
 def run_policies(ctx):
-    total = ctx.budget(9, 240)
-    T = 30
+    total = ctx.budget(18, 300)
+    T = 24
     for it in range(total):
-        name = ["dact", "n2s", "neuopt"][it % 3]
+        name = ["dact", "n2s", "neuopt", "neuopt"][it % 4]
         if name == "dact":
-            kind, n = 2, ctx.rng.choice([4, 5, 7, 10])
+            kind, n = 2, ctx.rng.choice([3, 4, 5, 7, 10])
         elif name == "n2s":
             kind, n = 0, ctx.rng.choice([5, 7, 9, 11])
         else:
-            kind = ctx.rng.choice([3, 4, 5])
-            n = ctx.rng.choice([kind + 1, 6, 8, 10])
-        env = pdp_env(n) if kind == 0 else kopt_env(n, kind)
-        pol = make_policy(name, ctx)
-        B = 3
-        pts = [geom.gen_points(ctx.rng, n) for _ in range(B)]
+            kind = [3, 4, 5, 6][(it // 4) % 4]
+            n = ctx.rng.choice([kind + 1, 7, 2 * kind + 3, 20])
+        env, eopts = pick_env(ctx, kind, n)
+        if name == "n2s" and not eopts["training"] and n < 7:
+            # in eval mode `action_record` has gs//2 rows and N2S' removal decoder reads its last THREE rows: with
+            # gs < 7 the feature size does not match and the policy raises (no move is produced; outside C09)
+            n = 7
+            env, eopts = pick_env(ctx, kind, n)
+            env = pdp_env(n, eopts["init_sol_type"], eopts["_torchrl_mode"], False)
+            eopts["training"] = False
+        pol, popts = make_policy(name, ctx)
+        B = ctx.rng.choice([1, 2, 3]) if name == "dact" else ctx.rng.choice([2, 2, 3, 4])
+        geos = [gen_geo(ctx.rng, n) for _ in range(B)]
         recs = [rand_pdp_tour(ctx.rng, n) if kind == 0 else rand_tour(ctx.rng, n) for _ in range(B)]
-        td = reset_with(env, kind, pts, recs)
-        tr = Trace(B)
+        td = reset_with(env, kind, geos, recs)
+        tr = Trace(B, [g["exp"] for g in geos])
         tr.snap(td, True)
-        phase = ctx.rng.choice(["test", "train"])
+        phase = ctx.rng.choice(["test", "train", "val"])
+        dkw = ctx.rng.choice([{}, {}, {"top_k": 3}, {"top_p": 0.9}, {"temperature": 0.3}])
+        opts = dict(eopts, policy=name, phase=phase, decoding_kwargs=dkw, **popts)
         adm = [[] for _ in range(B)]
         for t in range(T):
+            if t > 0 and ctx.rng.random() < 0.06:
+                mv, td = jump(ctx, env, kind, n, td)  # n-step PPO with CL_best does this between policy steps
+                for r in range(B):
+                    adm[r].append(True)
+                    tr.moves[r].append(mv[r])
+                tr.snap(td, False)
+                continue
             seed_torch(ctx)
             cur = td["rec_current"].tolist()
             prev_first = td["action"][:, 0].tolist() if "action" in td.keys() else None
             with torch.no_grad():
-                pol(td, env, phase=phase)
+                pol(td, env, phase=phase, **dict(dkw))
             mv = td["action"].tolist()
             # every emitted move must be admitted by the mask (judged on the model's mask of the current tour)
             if kind == 2:
@@ -746,26 +925,44 @@ def run_policies(ctx):
                 oks = []
                 for r, f in enumerate(fs):
                     same = ilist(f.get("action", "")) == mv[r]
+                    wf = f.get("wf") == "1" if same else \
+                        parse_fields(ctx.driver.ask(f"improve.koptk {n} {kind} | {J(cur[r])} | {J(mv[r])}")).get("wf") == "1"
                     if not same:
                         ctx.disagreement("NeuOpt policy: emitted action differs from the model's builder on the same node sequence",
-                                         {"n": n, "K": kind, "rec": cur[r], "real": mv[r], "model": f.get("action")})
-                    if same and f.get("wf") != "1":
-                        ctx.disagreement("NeuOpt policy: emitted action is not a well-formed segment-reversal move",
-                                         {"n": n, "K": kind, "rec": cur[r], "action": mv[r]})
-                    oks.append(same and f.get("adm") == "1")
+                                         {"n": n, "K": kind, "rec": cur[r], "real": mv[r], "model": f.get("action"), "opts": opts})
+                    oks.append(same and f.get("adm") == "1" and wf)
+                    if not wf:
+                        # the emitted action is not a segment-reversal move of the current tour at all
+                        ctx.violation("policy.neuopt:move-not-wellformed",
+                                      "NeuOptPolicy emitted an action that is not a well-formed k-opt move of the current tour",
+                                      {"policy": name, "n": n, "K": kind, "rec": cur[r], "move": mv[r], "step": t, "opts": opts})
+                closed = [any(mv[r][i] == cur[r][mv[r][i - 1]] for i in range(1, kind)) for r in range(B)]
+                ctx.count(f"policy.neuopt.K={kind}.steps")
+                if all(closed):
+                    ctx.count(f"policy.neuopt.K={kind}.steps-where-EVERY-row-closed-early")
+                elif any(closed):
+                    ctx.count(f"policy.neuopt.K={kind}.steps-with-mixed-closing")
             for r in range(B):
                 adm[r].append(oks[r])
                 if not oks[r]:
                     ctx.violation(f"policy.{name}:move-not-admitted", "a bundled policy emitted a move outside the environment's mask",
-                                  {"policy": name, "n": n, "kind": kind, "rec": cur[r], "move": mv[r], "step": t})
+                                  {"policy": name, "n": n, "kind": kind, "rec": cur[r], "move": mv[r], "step": t, "opts": opts})
                 tr.moves[r].append(mv[r])
             td = env.step(td)["next"]
             tr.snap(td, False)
         for r in range(B):
-            judge_trace(ctx, kind, n, pts[r], tr, r, f"policy.{name}", admitted=adm[r])
+            judge_trace(ctx, kind, n, geos[r], tr, r, f"policy.{name}", admitted=adm[r], opts=opts)
             ctx.count(f"policy.{name}.n={n}")
+            ctx.count(f"policy.{name}.B={B}")
             ctx.count(f"policy.{name}.distinct-moves", len({tuple(m) for m in tr.moves[r]}))
-    ctx.sample({"unit": "policies", "T": T, "what": "DACT / N2S / NeuOpt with random weights, every emitted move checked"})
+        for k in ("normalization", "pos_type", "tanh_clipping", "temperature", "test_decode_type", "num_heads"):
+            ctx.count(f"policy.opt.{k}={popts[k]}")
+        ctx.count(f"policy.opt.phase={phase}")
+        ctx.count(f"policy.opt.decoding_kwargs={sorted(dkw)}")
+        for k, v in eopts.items():
+            ctx.count(f"policy.env-opt.{k}={v}")
+        ctx.sample({"unit": "policies", "policy": name, "n": n, "B": B, "opts": {k: str(v) for k, v in opts.items()},
+                    "rec0": tr.cur[0][0], "moves": tr.moves[0][:3], "cost_bsf_ticks": tr.cbsf[0][:4]}, cap=4)
 
 
 # ------------------------------------------------------------------------------------------------
@@ -796,36 +993,78 @@ def corruptions(rng, rec: List[int], kind: int):
     return out
 
 
+def checker_key(name: str, n: int, rec: List[int], f: Dict[str, str]) -> str:
+    """violation key for 'real checker accepts, definition rejects'.  The two known findings are NARROW: the array
+    is a permutation of 0..n-1 that is not a single cycle AND the faithful Lean model of the unchanged checker
+    accepts it too (so the acceptance is the documented blind spot, not some other change of the checker)."""
+    if f["tour"] != "1" and sorted(rec) == list(range(n)) and f["check"] == "1":
+        return f"{name}-checker:accepts-subtours"
+    return f"{name}-checker:accepts-invalid"
+
+
 def run_checker(ctx, kind: int):
     name = "pdprr" if kind == 0 else "kopt"
     total = ctx.budget(60, 3000)
     for it in range(total):
         n = ctx.rng.choice([3, 5, 7, 9, 21] if kind == 0 else [3, 4, 5, 6, 8, 20])
-        env = pdp_env(n) if kind == 0 else kopt_env(n, 2)
+        opts = {}
+        if kind == 0:
+            env, opts = pick_env(ctx, 0, n)
+        else:
+            K = ctx.rng.choice([2, 3, 4, 5, 6])  # the checker is shared by the 2-opt and the k-opt configuration
+            env, opts = pick_env(ctx, K, n)
         good = rand_pdp_tour(ctx.rng, n) if kind == 0 else rand_tour(ctx.rng, n)
         cands = [("valid", good)] + corruptions(ctx.rng, good, kind)
         recs = [c[1] for c in cands]
         sp = [parse_fields(x) for x in ctx.driver.ask_many(spec_lines(kind, n, recs))]
+        row_verdict = []
         for (label, rec), f in zip(cands, sp):
             td = TensorDict({"rec_best": torch.tensor([rec], dtype=torch.long)}, batch_size=[1])
             real = rl.checker_accepts(env, td, None)
+            row_verdict.append(bool(real))
             valid = f["valid"] == "1"
             ctx.case((name, "check", tuple(rec)), nontrivial=label != "valid")
             ctx.count(f"check.{name}.{label}.valid={int(valid)}.accepted={int(bool(real))}")
             if (f["check"] == "1") != bool(real):
                 ctx.disagreement(f"{name} check_solution_validity differs",
                                  {"n": n, "rec": rec, "label": label, "real": real, "model": f["check"]})
-            wit = {"n": n, "rec_best": rec, "corruption": label, "tour_from_0": walk_from0(rec)}
+            wit = {"n": n, "rec_best": rec, "corruption": label, "tour_from_0": walk_from0(rec), "opts": opts}
             if valid and not real:
                 ctx.violation(f"{name}-checker:rejects-valid", "checker rejects a valid tour", wit)
             if not valid and real:
-                if f["tour"] != "1" and sorted(rec) == list(range(n)):
-                    ctx.violation(f"{name}-checker:accepts-subtours",
-                                  "checker accepts a successor array that splits into several sub-tours "
-                                  "(the tour from node 0 misses nodes)", wit)
+                key = checker_key(name, n, rec, f)
+                ctx.violation(key, "checker accepts a successor array that splits into several sub-tours "
+                              "(the tour from node 0 misses nodes)" if key.endswith("subtours") else
+                              "checker accepts an invalid solution", wit)
+            ctx.sample({"unit": name, "n": n, "rec_best": rec, "label": label, "spec_valid": valid, "checker_accepts": bool(real)}, cap=4)
+        # ---- mixed batches: the verdict on a batch must be the conjunction of the per-row verdicts, wherever the
+        # offending row sits (the checker is normally called on whole batches of rec_best) ----
+        for _ in range(2):
+            B = ctx.rng.choice([2, 3, 5])
+            others = [rand_pdp_tour(ctx.rng, n) if kind == 0 else rand_tour(ctx.rng, n) for _ in range(B - 1)]
+            j = ctx.rng.randrange(len(cands))
+            pos = ctx.rng.randrange(B)
+            batch = others[:pos] + [cands[j][1]] + others[pos:]
+            td = TensorDict({"rec_best": torch.tensor(batch, dtype=torch.long)}, batch_size=[B])
+            real_b = bool(rl.checker_accepts(env, td, None))
+            expect = row_verdict[j]  # the other rows are valid tours, accepted individually (checked above for `good`)
+            ctx.case((name, "check-batch", tuple(map(tuple, batch))), nontrivial=True)
+            ctx.count(f"check.{name}.batch.B={B}.pos={'first' if pos == 0 else 'last' if pos == B - 1 else 'middle'}."
+                      f"{cands[j][0]}.accepted={int(real_b)}")
+            if real_b != expect:
+                f = sp[j]
+                wit = {"n": n, "batch_rec_best": batch, "row": pos, "corruption": cands[j][0],
+                       "verdict_of_that_row_alone": expect, "verdict_of_batch": real_b, "opts": opts}
+                if real_b and f["valid"] != "1":
+                    ctx.violation(f"{name}-checker:batch-accepts-invalid-row",
+                                  "a batch is accepted although one of its rows is rejected when checked alone", wit)
                 else:
-                    ctx.violation(f"{name}-checker:accepts-invalid", "checker accepts an invalid solution", wit)
-    ctx.sample({"unit": name, "what": "check_solution_validity on valid tours and single-fault corruptions"})
+                    ctx.violation(f"{name}-checker:batch-verdict-differs",
+                                  "the verdict on a batch is not the conjunction of the per-row verdicts", wit)
+            elif real_b and sp[j]["valid"] != "1":
+                ctx.violation(checker_key(name, n, cands[j][1], sp[j]),
+                              "checker accepts a batch containing an invalid row",
+                              {"n": n, "batch_rec_best": batch, "row": pos, "rec_best": cands[j][1], "corruption": cands[j][0]})
 
 
 # ------------------------------------------------------------------------------------------------
@@ -849,23 +1088,30 @@ def replay_move(ctx, w):
 
 
 def replay_trace(ctx, w):
-    """witness of a bookkeeping / validity failure along a move sequence: {kind, n, pts, rec0, moves}"""
+    """witness of a bookkeeping / validity failure along a move sequence: {kind, n, pts, exp, off, rec0, moves, opts}"""
     if "moves" not in w:
         return replay_move(ctx, w)
     kind, n = w["kind"], w["n"]
-    env = pdp_env(n) if kind == 0 else kopt_env(n, kind)
+    o = w.get("opts") or {}
+    if kind == 0:
+        env = pdp_env(n, o.get("init_sol_type", "random"), bool(o.get("_torchrl_mode", False)), bool(o.get("training", True)))
+    else:
+        env = kopt_env(n, kind, o.get("init_sol_type", "random"), bool(o.get("_torchrl_mode", False)))
     B = 1 if kind == 2 else 2  # PDP / k-opt `_step` and sampler need B ≥ 2 (see run_bsf)
-    pts = [[tuple(p) for p in w["pts"]]] * B
-    td = reset_with(env, kind, pts, [w["rec0"]] * B)
-    tr = Trace(B)
+    geo = {"pts": [tuple(p) for p in w["pts"]], "exp": w.get("exp", 0), "off": tuple(w.get("off", (0, 0)))}
+    td = reset_with(env, kind, [geo] * B, [w["rec0"]] * B)
+    tr = Trace(B, [geo["exp"]] * B)
     tr.snap(td, True)
     for mv in w["moves"]:
-        td.set("action", torch.tensor([mv] * B, dtype=torch.long))
-        td = env.step(td)["next"]
+        if mv and mv[0] == -1:
+            td = env.step_to_solution(td, torch.tensor([mv[1:]] * B, dtype=torch.long))
+        else:
+            td.set("action", torch.tensor([mv] * B, dtype=torch.long))
+            td = env.step(td)["next"]
         for r in range(B):
             tr.moves[r].append(mv)
         tr.snap(td, False)
-    judge_trace(ctx, kind, n, pts[0], tr, 0, w.get("what", "replay"))
+    judge_trace(ctx, kind, n, geo, tr, 0, w.get("what", "replay"), opts=o)
 
 
 def replay_checker(ctx, w):
@@ -877,8 +1123,7 @@ def replay_checker(ctx, w):
         f = parse_fields(ctx.driver.ask(spec_lines(kind, n, [rec])[0]))
         if (f["valid"] == "1") != bool(real):
             name = "pdprr" if kind == 0 else "kopt"
-            key = f"{name}-checker:" + ("rejects-valid" if f["valid"] == "1" else
-                                        ("accepts-subtours" if f["tour"] != "1" and sorted(rec) == list(range(n)) else "accepts-invalid"))
+            key = f"{name}-checker:rejects-valid" if f["valid"] == "1" else checker_key(name, n, rec, f)
             ctx.violation(key, "replayed checker verdict disagrees with the definition", w)
 
 
@@ -889,7 +1134,13 @@ def replay_checker(ctx, w):
 MODEL_NOTE = ("TSPkoptEnv / PDPRuinRepairEnv modelled per instance on successor arrays (Rl4co/Env/Improve.lean); "
               "`argsort` is modelled as the inverse permutation (it is only applied to permutations); tour lengths are "
               "integers in ticks (exact-stream coordinates make the float32 costs exact); batching is outside the model "
-              "(rows are compared one by one)")
+              "(rows are compared one by one). Magnitudes: coordinates are integral point sets scaled by 2^-16 … 2^6 and shifted "
+              "by integers up to 1000 (all float32-exact), so improvements from ~1e-8 to >1 occur, next to equal-cost moves; the "
+              "model works on the unscaled integer matrix. `step_to_solution` (the solution_to branch of `_step`) is a move of the "
+              "model too (constant operator; Bsf.* theorems hold for ANY operator). Environment options (init_sol_type, "
+              "_torchrl_mode, train/eval mode of PDPRuinRepairEnv, k_max 2…6) and policy options (normalization, pos_type, "
+              "temperature, tanh_clipping, decode type, phase, top_k/top_p, heads/layers/width) are varied by the harness; they "
+              "are not parameters of the Lean model (none of them may change the observables the model predicts)")
 
 
 def _has(path: str) -> bool:
